@@ -1,5 +1,5 @@
 INIT Init
 NEXT Next
-CONSTANTS NE = 8 NS = 2 MaxLen = 3
+CONSTANTS NE = 10 NS = 2 MaxLen = 3
 INVARIANT Emit
 CHECK_DEADLOCK FALSE
